@@ -34,6 +34,10 @@ def analyse(prop: str, tier: str, root: str, overlay=None, known=None):
     rules = core.collect_rules(mod)
     per_rule = core.run_rules(ctx, prop, rules, tier)
     core.classify(ctx.obligations, core.load_known() if known is None else known)
+    # a floor miss is an analysis error unless the same run already pins a violation on a
+    # concrete construct (then the violation is the more useful report)
+    if ctx.floor_misses and not any(o.status == "violated" for o in ctx.obligations):
+        raise core.AnalysisError("; ".join(ctx.floor_misses))
     return ctx, per_rule, mod
 
 
